@@ -191,6 +191,16 @@ func Schema(t *T, o SchemaOpts) *model.Schema {
 		for _, in := range td.Interfaces {
 			for _, f := range ifaceDefs[in].Fields {
 				cp := *f
+				// the implementer's arguments have the interface's names and types, but may have defaults of their own:
+				// a field selected through the interface is then called with the defaults of the runtime type
+				cp.Args = nil
+				for _, a := range f.Args {
+					ac := *a
+					if (!ac.Type.NonNull() || o.NonNullDefaults) && chance(t, 30, "implementerDefault") {
+						ac.Default = RuntimeValue(t, s, ac.Type, 2, true)
+					}
+					cp.Args = append(cp.Args, &ac)
+				}
 				td.Fields = append(td.Fields, &cp)
 			}
 		}
